@@ -187,7 +187,8 @@ structure St where
   cpus : Nat
   deriving Repr
 
-def limOf (cpus : Nat) (n : Int) : Nat := if n < 1 then cpus else n.toNat
+/-- withSafeConcurrency: n < 1 means the number of CPUs; values that do not fit a uint32 are clamped -/
+def limOf (cpus : Nat) (n : Int) : Nat := if n < 1 then cpus else min n.toNat 4294967295
 
 def maxL (l : List Nat) : Nat := l.foldl max 0
 
